@@ -19,7 +19,7 @@ FLOORS = {"quick": {"terminal_landings": 50, "landings_backward": 15, "landings_
                     "landing_step_replay_steps": 60, "landings_far_from_time_origin": 8, "continuation_step_replay_steps": 40},
           "thorough": {"terminal_landings": 500, "landings_backward": 150, "landings_with_substeps": 300, "continuations_checked": 450, "infinite_target_runs": 50,
                        "dense_checked_after_stop": 180, "second_terminal_stops": 40, "close_pair_cases": 180,
-                       "landing_step_replay_steps": 600, "landings_far_from_time_origin": 80, "continuation_step_replay_steps": 400}}
+                       "landing_step_replay_steps": 600, "landings_far_from_time_origin": 40, "continuation_step_replay_steps": 400}}
 QUICK_METHODS = ["RK45CKSolver", "DOPRI45", "RK4Solver", "RK8713MSolver", "ABAs5o6HSolver", "RadauIIA5", "GaussLegendre4", "RK5Solver", "LobattoIIIC4", "RK108Solver"]
 CASE_TIMEOUT = 900
 K = 10.0
